@@ -18,6 +18,7 @@ pub mod c23;
 pub mod c24;
 pub mod c26;
 pub mod c28;
+pub mod c29;
 pub mod c31;
 pub mod c32;
 pub mod c33;
@@ -52,6 +53,8 @@ pub fn property(id: &str, ctx: &Ctx) -> Option<Property> {
         "C25" => c24::property_c25(ctx),
         "C26" => c26::property(ctx),
         "C28" => c28::property(ctx),
+        "C29" => c29::property_c29(ctx),
+        "C30" => c29::property_c30(ctx),
         "C31" => c31::property(ctx),
         "C32" => c32::property(ctx),
         "C33" => c33::property(ctx),
@@ -63,4 +66,4 @@ pub fn property(id: &str, ctx: &Ctx) -> Option<Property> {
     })
 }
 
-pub const ALL: &[&str] = &["C01", "C02", "C03", "C04", "C05", "C06", "C07", "C08", "C09", "C10", "C11", "C12", "C19", "C20", "C21", "C22", "C23", "C24", "C25", "C26", "C28", "C31", "C32", "C33", "C34", "C35", "C36", "C38"];
+pub const ALL: &[&str] = &["C01", "C02", "C03", "C04", "C05", "C06", "C07", "C08", "C09", "C10", "C11", "C12", "C19", "C20", "C21", "C22", "C23", "C24", "C25", "C26", "C28", "C29", "C30", "C31", "C32", "C33", "C34", "C35", "C36", "C38"];
